@@ -1004,10 +1004,12 @@ fn parse_files0_args(config: &mut Config) -> Result<(), Box<dyn Error>> {
         buffer_split.remove(buffer_split.len() - 1);
     }
 
+    // A name that is not valid UTF-8 cannot be searched (starting points are
+    // strings); keep it, lossily, so that it is reported like any other
+    // starting point that cannot be examined instead of being passed over.
     let mut string_segments: Vec<String> = buffer_split
         .iter()
-        .filter_map(|s| std::str::from_utf8(s).ok())
-        .map(|s| s.to_string())
+        .map(|s| String::from_utf8_lossy(s).into_owned())
         .collect();
     // empty starting point checker
     if string_segments.iter().any(|s| s.is_empty()) {
